@@ -31,7 +31,7 @@ logging.disable(logging.CRITICAL)
 
 WAIT = 90.0       # bound of every wait; every wait ends on a condition (reply arrived, event recorded, thread returned), so the bound is
                   # only reached when something is wedged: a broken check (Stuck), never a pass and never an observation
-T3_LONG = 20.0    # reply timeout while a reply is going to come
+T3_LONG = 600.0   # reply timeout while a reply is going to come (also while the harness deliberately holds an S6F12 back)
 T3_SHORT = 0.02   # reply timeout for a probe the peer does not answer
 STATE_ATTRS = ["init", "control", "offline", "equipment_offline", "attempt_online", "host_offline", "online", "online_local", "online_remote"]
 INITIALS = ["EQUIPMENT_OFFLINE", "ATTEMPT_ONLINE", "HOST_OFFLINE", "ONLINE"]
@@ -48,10 +48,16 @@ CONSTRUCTING: list = []
 _orig_trigger = CollectionEventCapability.trigger_collection_events
 
 
+SENDERS: dict[int, list] = {}   # handler id -> the sender threads `trigger_collection_events` started (to know when "nothing was sent" is final)
+
+
 def _rec_trigger(self, ceids):
     vals = [c.value if hasattr(c, "value") else c for c in ceids]
     TRIGGERED.get(id(self), CONSTRUCTING).extend(vals)
-    return _orig_trigger(self, ceids)
+    before = set(threading.enumerate())
+    r = _orig_trigger(self, ceids)
+    SENDERS.setdefault(id(self), []).extend((t, len(vals)) for t in threading.enumerate() if t not in before)   # one that already finished is not needed
+    return r
 
 
 CollectionEventCapability.trigger_collection_events = _rec_trigger
@@ -107,6 +113,9 @@ class Rig:
         self.probe_seen = threading.Event()
         self.probe_system = None
         self.s6f11: list[int] = []
+        self.hold_s6f12 = False
+        self.held: list[int] = []
+        self.sent_by: dict = {}   # sender thread -> number of S6F11 it has written
         self.unexpected: list[str] = []
         self.comm = False
         self.op_thread = None
@@ -142,7 +151,12 @@ class Rig:
             fn = self.h.stream_function(6, 11)()
             fn.decode(blk.data)
             self.s6f11.append(fn.CEID.get())
-            self.reply(hd.system, 6, 12, 0)
+            me = threading.current_thread()
+            self.sent_by[me] = self.sent_by.get(me, 0) + 1
+            if self.hold_s6f12:
+                self.held.append(hd.system)    # the host confirms late (inside T3): released by the harness, not by a clock
+            else:
+                self.reply(hd.system, 6, 12, 0)
         else:
             self.unexpected.append(f"S{s}F{f}")
 
@@ -199,6 +213,9 @@ class Rig:
     def close(self):
         try:
             TRIGGERED.pop(id(self.h), None)
+            SENDERS.pop(id(self.h), None)
+            if self.held:
+                self.release()
             if self.op_thread is not None and self.op_thread.is_alive():
                 if self.probe_system is not None:
                     self.reply(self.probe_system, 1, 0, None)
@@ -316,13 +333,32 @@ class Rig:
         if tok == "linkup":   # harness-only (not a model input): re-establish communication
             self.link_up()
             return None
+        if tok == "hold":     # harness-only: from now on the host keeps its S6F12 confirmations back
+            self.hold_s6f12 = True
+            return None
+        if tok == "release":  # harness-only: the host confirms every report it has kept back
+            self.release()
+            return None
         raise Stuck("unknown token " + tok)
 
+    def release(self):
+        self.hold_s6f12 = False
+        held, self.held = self.held, []
+        for system in held:
+            self.reply(system, 6, 12, 0)
+
     def settle_s6f11(self, want):
-        """event-enabled rigs: the S6F11 actually sent for this step"""
+        """event-enabled rigs: the S6F11 actually sent for this step.  Ends when the expected number has arrived, or when every sender
+        thread `trigger_collection_events` started has finished (then "fewer were sent" is final) - not on a clock."""
         end = time.time() + WAIT
+        senders = SENDERS.get(id(self.h), [])
         while len(self.s6f11) < want and time.time() < end:
+            # a sender is still "to come" while it is alive and has written fewer reports than it was given events; one that has written
+            # them all and waits for the (possibly held back) S6F12 is through
+            if not any(t.is_alive() and self.sent_by.get(t, 0) < n for t, n in senders):
+                break
             time.sleep(0.002)
+        senders[:] = [(t, n) for t, n in senders if t.is_alive() and self.sent_by.get(t, 0) < n]
         got = self.s6f11[:]
         del self.s6f11[:len(got)]
         return got
@@ -396,7 +432,7 @@ def run_history(res, initial, sub, comm, events, toks):
                 got = rig.settle_s6f11(len(want))
                 if sorted(got) != sorted(want):
                     res.violate("c11-s6f11", "the S6F11 reports sent differ from the collection events triggered (all three enabled)",
-                                {"initial": initial, "sub": sub, "history": toks, "at": tok}, sorted(want), sorted(got))
+                                {"initial": initial, "sub": sub, "comm": comm, "events": events, "history": toks, "at": tok}, sorted(want), sorted(got))
             steps.append(rig.observe(outs))
             res.bump("inputs", tok)
         if rig.unexpected:
@@ -561,6 +597,7 @@ def main():
     res.rule = ("real GemEquipmentHandler per initial configuration (4 defaults x LOCAL/REMOTE) on an in-memory HSMS link, harness = host + operator; "
                 f"exhaustive: every input sequence of length {depth} over {{on.answers, on.silent, off, local, remote, S1F15, S1F17}} from every resting "
                 "state x remembered sub-state (reached through the handler's own inputs), every initial configuration x every single input and pair; "
+                "event-enabled rigs in which the host keeps its S6F12 confirmations back over several transitions (released by the harness); "
                 "random histories (4-14 inputs) incl. aborted probes, probes held open while S1F15/S1F17/operator actions arrive, link loss and "
                 "re-establishment, not-communicating handlers. distinct = distinct (configuration, history); all are non-trivial")
     jobs = []  # (initial, sub, comm, events, tokens)
@@ -579,6 +616,9 @@ def main():
                     jobs.append((ini, sub, True, False, list(seq)))
                 jobs.append((ini, sub, False, False, ALPHA_NOCOMM + ["on.nocomm", "off"]))
                 jobs.append((ini, sub, True, True, rng.shuffle(ALPHA_COMM) + ["on.aborts", "local", "s1f17", "remote", "off"]))
+                # the host confirms S6F11 late: transitions that repeat an event while its earlier report is still unconfirmed
+                jobs.append((ini, sub, True, True, ["on.answers", "s1f17", "hold", "local", "remote", "local", "remote", "s1f15", "s1f17", "s1f15",
+                                                    "release", "s1f17", "off", "on.answers", "local", "remote"]))
         # exhaustive: every window of `depth` consecutive inputs from every reachable resting (state, remembered) pair, covered by long walks
         walks, n_windows = covering_walks(rng, depth, 400)
         res.exhaustive_parts.append(f"every input sequence of length {depth} over 7 inputs from each of the 6 reachable resting (state, remembered sub-state) pairs: "
@@ -592,6 +632,10 @@ def main():
             events = comm and rng.chance(1, 4)
             # S6F11 are written by sender threads that block while the link is down and deliver later: the link stays up in the event rigs
             toks = gen_random_history(rng, comm, allow_link=not events)
+            if events and rng.chance(1, 2):
+                a_ = rng.below(len(toks))
+                toks = toks[:a_] + ["hold"] + toks[a_:]
+                toks.insert(rng.range(a_ + 2, len(toks)), "release")
             jobs.append((ini, sub, comm, events, toks))
 
     cases, lines, answers = [], [], []
